@@ -268,6 +268,43 @@ type decoded struct {
 	h, hc, hn, hnc string
 	boc            string // the bag the message cell was parsed from (replay input)
 	m              *tlb.Message
+	reused         bool   // decoded into variables that held another message before
+	prev           string // ... namely the one in this bag
+}
+
+// slots are two Message variables that live across decodes (one for the decoder without, one for the decoder with a
+// caching hasher): a program that loops over messages with one variable.  Hash(false)/Hash(true) are asked of the variables
+// themselves, so whatever a Message value keeps from the message it held before shows in the report.
+type slots struct {
+	plain, cached tlb.Message
+	used          int
+	last          string // the bag decoded into them last
+}
+
+// cloneMsg: a copy that shares no info record with m (Hash(true) writes into the destination address)
+func cloneMsg(m *tlb.Message) *tlb.Message {
+	cp := *m
+	if m.Info.ExtInMsgInfo != nil {
+		x := *m.Info.ExtInMsgInfo
+		cp.Info.ExtInMsgInfo = &x
+	}
+	if m.Info.IntMsgInfo != nil {
+		x := *m.Info.IntMsgInfo
+		cp.Info.IntMsgInfo = &x
+	}
+	if m.Info.ExtOutMsgInfo != nil {
+		x := *m.Info.ExtOutMsgInfo
+		cp.Info.ExtOutMsgInfo = &x
+	}
+	return &cp
+}
+
+// report: Hash(false) / Hash(true) of the variable itself when it is a slot, of a copy otherwise
+func report(m *tlb.Message, slot bool) (string, string) {
+	if !slot {
+		return msgReport(m)
+	}
+	return hx(m.Hash(false)), hx(m.Hash(true))
 }
 
 // libraryCell: library cell (exotic type 2): 8-bit type tag + 256-bit hash
@@ -283,20 +320,20 @@ func libraryCell(r *rand.Rand) *boc.Cell {
 // roundTrip lays the message out (encodeSpec) and decodes the cell twice: without a hasher (tlb.Unmarshal) on the cell as
 // built in memory or as parsed from its bag, and with a caching hasher (dec, shared with earlier messages) on a fresh parse.
 // exoticBody, if set, is referenced as the body.
-func roundTrip(m *tlb.Message, dec *tlb.Decoder, viaBoc bool, exoticBody *boc.Cell) (*decoded, error) {
+func roundTrip(m *tlb.Message, dec *tlb.Decoder, viaBoc bool, exoticBody *boc.Cell, sl *slots) (*decoded, error) {
 	c, err := encodeSpec(m, exoticBody)
 	if err != nil {
 		return nil, fmt.Errorf("layout: %w", err)
 	}
-	return decodeCell(c, dec, viaBoc)
+	return decodeCell(c, dec, viaBoc, sl)
 }
 
-func decodeCell(c *boc.Cell, dec *tlb.Decoder, viaBoc bool) (*decoded, error) {
+func decodeCell(c *boc.Cell, dec *tlb.Decoder, viaBoc bool, sl *slots) (*decoded, error) {
 	bag, err := c.ToBoc()
 	if err != nil {
 		return nil, fmt.Errorf("toboc: %w", err)
 	}
-	return decodeBag(bag, c, dec, viaBoc)
+	return decodeBag(bag, c, dec, viaBoc, sl)
 }
 
 // decodeErr: the library refused (or panicked on) a message cell the specification can read: recorded, never fatal
@@ -309,9 +346,17 @@ type decodeErr struct {
 
 func (e *decodeErr) Error() string { return e.stage + ": " + e.err.Error() }
 
-// decodeBag decodes the message in `bag` (c: the same cell in memory, or nil) without and with a caching hasher.
-func decodeBag(bag []byte, c *boc.Cell, dec *tlb.Decoder, viaBoc bool) (*decoded, error) {
+// decodeBag decodes the message in `bag` (c: the same cell in memory, or nil) without and with a caching hasher —
+// into fresh Message variables, or (sl != nil) into the two long-lived ones.
+func decodeBag(bag []byte, c *boc.Cell, dec *tlb.Decoder, viaBoc bool, sl *slots) (*decoded, error) {
 	d := &decoded{boc: hex.EncodeToString(bag)}
+	m1, m2 := &tlb.Message{}, &tlb.Message{}
+	if sl != nil {
+		m1, m2 = &sl.plain, &sl.cached
+		d.reused, d.prev = sl.used > 0, sl.last
+		sl.used++
+		sl.last = d.boc
+	}
 	var err error
 	parse := func() (*boc.Cell, error) {
 		rs, err := boc.DeserializeBoc(bag)
@@ -327,11 +372,11 @@ func decodeBag(bag []byte, c *boc.Cell, dec *tlb.Decoder, viaBoc bool) (*decoded
 		}
 	}
 	d.cells = table(c1) // the cell the message is about to be decoded from
-	d.m = &tlb.Message{}
-	if err := safely(func() error { return tlb.Unmarshal(c1, d.m) }); err != nil {
+	if err := safely(func() error { return tlb.Unmarshal(c1, m1) }); err != nil {
 		return nil, &decodeErr{"unmarshal", d.cells, d.boc, err}
 	}
-	d.h, d.hn = msgReport(d.m)
+	d.m = cloneMsg(m1)
+	d.h, d.hn = report(m1, sl != nil)
 	c2, err := parse()
 	if err != nil {
 		return nil, err
@@ -339,11 +384,10 @@ func decodeBag(bag []byte, c *boc.Cell, dec *tlb.Decoder, viaBoc bool) (*decoded
 	if !reflect.DeepEqual(d.cells, table(c2)) {
 		return nil, fmt.Errorf("the bag round trip changed the cells (C01 territory)")
 	}
-	var m2 tlb.Message
-	if err := safely(func() error { return dec.Unmarshal(c2, &m2) }); err != nil {
+	if err := safely(func() error { return dec.Unmarshal(c2, m2) }); err != nil {
 		return nil, &decodeErr{"unmarshal-with-hasher", d.cells, d.boc, err}
 	}
-	d.hc, d.hnc = msgReport(&m2)
+	d.hc, d.hnc = report(m2, sl != nil)
 	return d, nil
 }
 
